@@ -347,7 +347,9 @@ func (s *state) op(ws []string) string {
 		args := trimUndef([]goja.Value{b.obj, s.iarg(ws[3]), s.iarg(ws[4])})
 		var o *goja.Object
 		var err error
-		if len(ws) > 5 {
+		if len(ws) > 5 && strings.Contains(ws[5], "s") {
+			o, err = rt.New(s.subclass(kindCtor[ws[1]]), args...)
+		} else if len(ws) > 5 {
 			o, err = s.constructWithNewTarget(rt.Get(kindCtor[ws[1]]), args, parseDets(strings.TrimPrefix(ws[5], "^")))
 		} else {
 			o, err = rt.New(rt.Get(kindCtor[ws[1]]), args...)
@@ -513,8 +515,22 @@ func (s *state) op(ws []string) string {
 		return s.join(ws)
 	case "A":
 		b := s.buf(atoi(ws[1]))
+		bobj := b.obj.(*goja.Object)
 		args := trimUndef([]goja.Value{s.iarg(ws[2]), s.iarg(ws[3])})
-		res, err := s.call(b.obj.(*goja.Object), "slice", args...)
+		if len(ws) > 4 && ws[4] != "_" {
+			h, dets := splitBang(ws[4])
+			target := s.buf(atoi(h))
+			ctor := rt.NewObject()
+			ctor.SetSymbol(goja.SymSpecies, rt.ToValue(func(goja.ConstructorCall) *goja.Object {
+				for _, d := range dets {
+					s.detach(d)
+				}
+				return target.obj.(*goja.Object)
+			}))
+			bobj.Set("constructor", ctor)
+			defer bobj.Delete("constructor")
+		}
+		res, err := s.call(bobj, "slice", args...)
 		if err != nil {
 			return s.errName(err)
 		}
@@ -523,6 +539,11 @@ func (s *state) op(ws []string) string {
 			panic("slice did not return an ArrayBuffer")
 		}
 		out := fmt.Sprintf("view 0 %d", len(ab.Bytes()))
+		for _, hb := range s.bufs {
+			if hb.obj != nil && hb.obj.SameAs(res) {
+				return out // an existing buffer returned by the species constructor
+			}
+		}
 		s.bufs = append(s.bufs, &hbuf{mem: ab.Bytes(), ab: ab, obj: res})
 		return out
 	}
@@ -630,7 +651,11 @@ func (s *state) freshOp(ws []string) string {
 			k++
 			return rt.ToValue(keep)
 		})
-		res, err = s.call(v, "filter", cb)
+		sp := "_"
+		if len(ws) > 4 {
+			sp = ws[4]
+		}
+		s.withSpecies(v, sp, func() { res, err = s.call(v, "filter", cb) })
 	case "M":
 		k := 0
 		cb := rt.ToValue(func(goja.FunctionCall) goja.Value {
@@ -825,10 +850,8 @@ func (s *state) join(ws []string) string {
 		return s.errName(err)
 	}
 	isBig := false
-	if c := v.Get("constructor"); c != nil {
-		if n := c.ToObject(rt).Get("name"); n != nil && strings.HasPrefix(n.String(), "Big") {
-			isBig = true
-		}
+	if tag := v.GetSymbol(goja.SymToStringTag); tag != nil && strings.HasPrefix(tag.String(), "Big") {
+		isBig = true // %TypedArray%.prototype[@@toStringTag] names the element type also for user subclasses
 	}
 	var items []string
 	for _, piece := range strings.Split(res.String(), ",") {
@@ -997,11 +1020,43 @@ func (s *state) dump() string {
 			sb.WriteString(hex.EncodeToString(b.mem))
 		}
 	}
+	if h := s.rt.Get("__protoHits"); h != nil && h.ToInteger() != 0 {
+		flags = append(flags, fmt.Sprintf("PROTOHIT!%d", h.ToInteger()))
+		s.rt.Set("__protoHits", 0)
+	}
 	out := sb.String()
 	if len(flags) > 0 {
 		out += " " + strings.Join(flags, " ")
 	}
 	return out
+}
+
+// newState: a fresh runtime whose %TypedArray%.prototype carries accessor properties for the integer keys -1..70:
+// an integer-indexed exotic object never consults its prototype for a canonical numeric key, in range or not, so
+// these accessors must never run (PROTOHIT otherwise).
+func newState() *state {
+	s := &state{rt: goja.New()}
+	_, err := s.rt.RunString(`(function(){
+		var TA = Object.getPrototypeOf(Uint8Array.prototype);
+		globalThis.__protoHits = 0;
+		for (var i = -1; i <= 70; i++) {
+			Object.defineProperty(TA, String(i), {get: function(){ __protoHits++; return 77 }, set: function(v){ __protoHits++ }, configurable: true});
+		}
+	})()`)
+	if err != nil {
+		panic(err)
+	}
+	return s
+}
+
+// subclass: `class extends <K>Array {}` — views created through it take the non-default-constructor paths of
+// slice / filter / map / subarray (species = the subclass)
+func (s *state) subclass(name string) goja.Value {
+	v, err := s.rt.RunString("(class extends " + name + " {})")
+	if err != nil {
+		panic(err)
+	}
+	return v
 }
 
 func handle(line string) string {
@@ -1010,11 +1065,11 @@ func handle(line string) string {
 		return "PARSE-ERROR"
 	}
 	if ws[0] == "N" {
-		st = &state{rt: goja.New()}
+		st = newState()
 		return "ok |"
 	}
 	if st == nil {
-		st = &state{rt: goja.New()}
+		st = newState()
 	}
 	res := common.Safe(func() string { return st.op(ws) })
 	if res == "PANIC BAD-OP" {
